@@ -32,7 +32,8 @@ EXTENDS Integers, Sequences, FiniteSets, TLC
 CONSTANTS SizeOverflowChecked, \* header size near 2^32 is rejected (FALSE: size+header wraps, slice panic / endless loop)
           IdxRobust,           \* a missing / too short index file is rebuilt from the txn file (FALSE: error / panic)
           ZeroTail,            \* recovery clears the writable segment behind the recovered end (FALSE: stale records stay)
-          RolloverFlushes      \* a segment is flushed before its successor is created (FALSE: closed segments can be torn)
+          RolloverFlushes,     \* a segment is flushed before its successor is created (FALSE: closed segments can be torn)
+          EmptyReported        \* a zero size field at or below the commit offset with data behind it is an error (FALSE: end of log)
 
 None == [rec |-> -1, field |-> "none", cls |-> "none", at |-> -1]
 
@@ -93,10 +94,11 @@ ImageOK(img) ==
           /\ Lay(img)[img.dmg.rec + 1].seg <= Live(img)
           /\ \/ img.dmg.field = "size" /\ img.dmg.cls \in SizeClasses
              \/ img.codec = "v2" /\ img.dmg.field \in {"prevcrc", "crc", "payload"} /\ img.dmg.cls \in {"rand", "zero"}
+             \/ img.codec = "v2" /\ img.dmg.field = "record" /\ img.dmg.cls = "zero"       \* the whole record is zeroed
              \/ /\ img.codec = "v2" /\ img.dmg.field = "splice"
                 /\ img.dmg.at \in 0..(N(img) - 1) /\ img.dmg.at # img.dmg.rec
                 /\ img.sizes[img.dmg.at + 1] = img.sizes[img.dmg.rec + 1]
-    /\ \A j \in 1..Len(img.post) : H(img) + img.post[j] <= img.seg
+    /\ \A j \in 1..Len(img.post) : 12 + img.post[j] <= img.seg      \* new segments are always written in format v2
 
 \* the damage changes a byte
 Damaged(img) == img.dmg.field # "none" /\ ~(img.dmg.field = "size" /\ img.dmg.cls = "exact")
@@ -107,16 +109,21 @@ IdxDamaged(img) == \E s \in 1..(Live(img) - 1) : img.idx[s] \in IdxDamage
 (* Known findings (recorded in known-findings.json, not repaired): the     *)
 (* trigger is a predicate of the image, the symptom is the exact outcome.  *)
 (***************************************************************************)
-\* a zeroed size field looks like the end of the log, also at or below the commit offset
-KfEmptyCommitted(img) == /\ img.dmg.field = "size" /\ img.dmg.cls = "s0" /\ D(img) <= img.commit
-                         /\ Lay(img)[D(img) + 1].seg = Live(img)
+\* non-zero bytes follow record i in its segment file
+DataFollows(img, i) ==
+    \/ img.dmg.field = "size" /\ img.dmg.rec = i - 1 /\ img.rs[i] = "complete"
+    \/ \E j \in (i + 1)..N(img) : Lay(img)[j].seg = Lay(img)[i].seg /\ img.rs[j] # "absent"
+\* a committed record at the very end of the writable segment that is zeroed completely cannot be told from
+\* the end of the log (the WAL does not compare its last offset with the commit offset)
+KfWipedLast(img) == /\ img.dmg.field = "record" /\ D(img) <= img.commit
+                    /\ Lay(img)[D(img) + 1].seg = Live(img) /\ ~DataFollows(img, D(img) + 1)
 \* read-only segments are opened lazily and never validated against the commit offset:
 \* damage above the commit offset surfaces as an error instead of being discarded
 KfRoTail(img) == /\ Damaged(img) /\ D(img) > img.commit /\ Lay(img)[D(img) + 1].seg < Live(img)
 \* a record's checksum is seeded with the previous-crc field of its own header; nothing compares
 \* that field with the checksum of the record before it
 KfSplice(img) == img.dmg.field = "splice"
-Kf(img) == (IF KfEmptyCommitted(img) THEN {"emptyCommitted"} ELSE {}) \cup
+Kf(img) == (IF KfWipedLast(img) THEN {"wipedLast"} ELSE {}) \cup
            (IF KfRoTail(img) THEN {"roTail"} ELSE {}) \cup
            (IF KfSplice(img) THEN {"splice"} ELSE {})
 
@@ -162,7 +169,7 @@ RecoveryOk(img, out) == IF img.codec = "v1" THEN RecoveryOkV1(img, out) ELSE Rec
 
 \* the exact symptom of each known finding (anything else on such an image is a different violation)
 Symptom(img, out) ==
-    \/ /\ KfEmptyCommitted(img)
+    \/ /\ KfWipedLast(img)
        /\ CleanPrefix(out, D(img), D(img)) /\ PostOk(img, out)
     \/ /\ KfRoTail(img) /\ out.res = "error"
     \/ /\ KfSplice(img) /\ out.res = "ok"
@@ -192,6 +199,7 @@ Stat(img, i) ==
                          [] img.dmg.cls = "exact" -> "valid"
                          [] img.dmg.cls \in {"ovf_at", "ovf_max"} -> "ovf"
                          [] OTHER -> "corrupt")
+                [] img.dmg.field = "record" -> "empty"
                 [] img.dmg.field = "splice" -> "valid"          \* self-consistent: accepted
                 [] OTHER -> "corrupt"
          ELSE "valid"
@@ -205,7 +213,10 @@ Scan(img, i, hi, useCommit) ==
     IF i > hi THEN [res |-> "ok", upto |-> hi]
     ELSE LET st == Stat(img, i) IN
          IF st = "valid" THEN Scan(img, i + 1, hi, useCommit)
-         ELSE IF st = "empty" THEN [res |-> "ok", upto |-> i - 1]
+         ELSE IF st = "empty"
+              THEN IF EmptyReported /\ useCommit /\ i - 1 <= img.commit /\ DataFollows(img, i)
+                   THEN [res |-> "error", upto |-> i - 1]
+                   ELSE [res |-> "ok", upto |-> i - 1]                               \* taken for the end of the log
          ELSE IF st = "ovf" /\ ~SizeOverflowChecked THEN [res |-> "panic", upto |-> i - 1]
          ELSE IF useCommit /\ i - 1 > img.commit THEN [res |-> "ok", upto |-> i - 1]   \* discard
          ELSE [res |-> "error", upto |-> i - 1]
@@ -220,7 +231,8 @@ OpenRO(img, s) ==
                    THEN [res |-> IF ix = "missing" THEN "error" ELSE "panic", upto |-> lo - 1]
                    ELSE Scan(img, lo, hi, FALSE)
     IN IF r.res # "ok" THEN r
-       ELSE IF r.upto < lo THEN [res |-> "panic", upto |-> r.upto]        \* empty index: fileOffset(idx, base, base-1)
+       ELSE IF r.upto < lo                                                \* nothing indexed: fileOffset(idx, base, base-1)
+            THEN [res |-> IF IdxRobust THEN "error" ELSE "panic", upto |-> r.upto]
        ELSE LET st == Stat(img, r.upto) IN                                \* "recover the last crc"
             IF st = "valid" THEN r
             ELSE IF st = "ovf" /\ ~SizeOverflowChecked THEN [res |-> "panic", upto |-> r.upto]
